@@ -1057,7 +1057,13 @@ func (e *Exec) runAtClause(st *State, fc *FuncContract, c *Clause, i int, instr 
 		}
 		e.cover(st, anchor, c.Props, c.Text)
 		e.oblige(st, "assert", anchor, c.Props, c.Text, g, instr.Pos())
-		st.assume(g)
+		// A check for property P uses as lemmas only the assertions it
+		// proves itself (those tagged P, and untagged helper assertions):
+		// otherwise a failing assertion of another property would mask
+		// P's own assertions further down the same path.
+		if p := e.cs.AssumeProp; p == "" || len(c.Props) == 0 || contains(c.Props, p) {
+			st.assume(g)
+		}
 	case "assume":
 		g, err := e.evalBool(ctx, c.Expr)
 		if err != nil {
